@@ -10,6 +10,7 @@ rm -rf "$SCR"; mkdir -p "$SCR"
 git -C /repo worktree prune
 git -C /repo worktree add -q --detach "$SCR/repo" HEAD || exit 9
 mkdir -p "$SCR/harness"
+cp -r /verif/ref "$SCR/ref"   # the frozen grammar is found relative to the harness
 rsync -a --exclude target --exclude Cargo.lock /verif/harness/ "$SCR/harness/"
 cp /verif/harness/Cargo.lock "$SCR/harness/" 2>/dev/null
 sed -i "s|/repo/|$SCR/repo/|g" "$SCR/harness/probe/Cargo.toml" "$SCR/harness/probe20/Cargo.toml" "$SCR/harness/regen/Cargo.toml" 2>/dev/null
